@@ -456,6 +456,37 @@ func ruleR19(c *Ctx) {
 				c.Check(len(bad) == 0, f, call, desc, "Unsubscribe on every path from the subscription to the exit of "+f.QName(), ifEmpty(witnessLines(g, bad), "all exits pass Unsubscribe (defer or explicit)"))
 				return true
 			}
+			// handed to a goroutine as an argument: that function owns it and must release its parameter on every exit
+			handedOK, handedTo := false, ""
+			inspectNoLit(f.Body, func(z ast.Node) bool {
+				gs, ok := z.(*ast.GoStmt)
+				if !ok {
+					return true
+				}
+				for i, a := range gs.Call.Args {
+					id, ok := unparen(a).(*ast.Ident)
+					if !ok || objOf(in, id) != types.Object(sv) {
+						continue
+					}
+					cf := p.byObj[callee(in, gs.Call)]
+					if cf == nil {
+						continue
+					}
+					pv := paramAt(cf, i)
+					if pv == nil {
+						continue
+					}
+					cg := p.Graph(cf)
+					bad := cg.MustPassBeforeExit(cg.Entry(), true, func(n ast.Node) bool { return releasesVar(p, cf, n, pv, relUnsub, 0) })
+					handedTo = cf.QName()
+					handedOK = len(bad) == 0
+				}
+				return true
+			})
+			if handedTo != "" {
+				c.Check(handedOK, f, call, desc, "the subscription is handed to goroutine "+handedTo+", which must Unsubscribe it on every exit", fmt.Sprintf("callee releases its parameter on all exits: %v", handedOK))
+				return true
+			}
 			var owners []*FuncInfo
 			var collect func(fi *FuncInfo)
 			collect = func(fi *FuncInfo) {
